@@ -20,7 +20,7 @@ FIELD_OF = {1: "best_block", 2: "newest_valid_block", 3: "ancestor_block",
             5: "ancestor_receipts_root", 0x81: "updating.best_block",
             0x82: "updating.newest_valid_block", 0x84: "updating.next_expected_block"}
 NETWORKS = {1: "mainnet", 2: "testnet", 3: "regtest"}
-REQUIRED_LABELS = {t: ["history", "reconnect", "cmd:getPubKey", "cmd:blockchainState", "cmd:blockchainParameters",
+REQUIRED_LABELS = {t: ["history", "reconnect", "hb-fault", "cmd:getPubKey", "cmd:blockchainState", "cmd:blockchainParameters",
                        "cmd:signerHeartbeat", "cmd:uiHeartbeat", "uihb:ok", "uihb:device-error",
                        "diff:0", "diff:max", "sig:0x31"] for t in ("quick", "thorough")}
 
@@ -71,6 +71,10 @@ def one_query(draw, tier):
                 st.lists(st.sampled_from([UIHB, SIGNER, BOOT]), min_size=2, max_size=2)))
             c["exit_raises"] = draw(st.booleans())
             c["mode_error_after"] = draw(st.sampled_from([None, None, None, 1, 2]))
+        if draw(st.integers(0, 3)) == 0:
+            # the heartbeat generation itself fails once on the device (ERR_*_INTERNAL etc.)
+            c["hb_fault"] = [draw(st.integers(1, 5)),
+                             draw(st.sampled_from([0x6A99, 0x6B11, 0x6B10, 0x6A01, 0x6BFF]))]
     return c
 
 
@@ -117,11 +121,12 @@ def run_case(c):
             # the link drops and the manager reconnects (to a possibly different device state)
             p._comm_issue = True
             labels.append("reconnect")
-        if p is not None and w.mode != SIGNER:
-            break          # an earlier uiHeartbeat left the device elsewhere: history ends
         w.mode_error = False
         out, p = run_query(q, w, p)
         labels.extend(out)
+        if q["cmd"] == "uiHeartbeat" and (q["exit_modes"] != [UIHB, SIGNER] or
+                                          q.get("mode_error_after")):
+            break          # the device did not obey the mode switches: the history ends here
     return Out(labels, True)
 
 
@@ -160,6 +165,9 @@ def run_query(c, w, p):
                          "ui_hash": other["hash"], "ui_pubkey": other["pubkey"]})
         if c["sig"]["first"] == 0x31:
             labels.append("sig:0x31")
+        if c.get("hb_fault"):
+            w.hb_fault = (ui, c["hb_fault"][0], c["hb_fault"][1])
+            labels.append("hb-fault")
     if p is None:
         p = mw.stack(w)
     if cmd == "uiHeartbeat" and c.get("mode_error_after"):
@@ -218,7 +226,11 @@ def run_query(c, w, p):
         want = {"errorcode": 0, "pubKey": c["pubkey"].hex(),
                 "message": (c["prefix"] + c["ud"]).hex(), "tweak": c["hash"].hex(),
                 "signature": {"r": c["sig"]["r"].hex(), "s": c["sig"]["s"].hex()}}
-        if not ui:
+        if c.get("hb_fault"):
+            expect(rep, {"errorcode": -905}, cmd + " after a heartbeat failure on the device")
+            if ui and rep["errorcode"] == 0 and w.mode != SIGNER:
+                raise Violation("uihb-success-not-back-in-signer", "mode %r" % w.mode)
+        elif not ui:
             expect(rep, want, "signerHeartbeat")
         else:
             nominal = c["exit_modes"] == [UIHB, SIGNER] and not c.get("mode_error_after")
